@@ -307,6 +307,54 @@ fn distance_case<G: CurveTag>(total: usize, p: usize, dist: usize, col: &mut Col
     Ok(())
 }
 
+/// A very long batch (thousands of cheap members) that is all valid, or has exactly one member
+/// that fails on its own at `bad` (None: all valid): the verdict must not depend on how the
+/// batch is partitioned or accumulated internally.
+fn huge_case<G: CurveTag>(total: usize, bad: Option<usize>, col: &mut Collector) -> Result<(), Failure> {
+    let fx = fixture::<G>(0, 0);
+    let fx1 = fixture::<G>(1, 0);
+    let mut m = fx1.mirror.clone();
+    m.t_x += Fr::<G>::from(3u64);
+    let badp = m.to_real().unwrap();
+    // the oracle is the member's own verdict
+    if run_verifier::<G>(&fx1.prog, &fx1.commitments, &badp, &VerifyOpts::default()).accepted() {
+        col.note("shifted proof accepted on its own (left to C04)");
+        return Ok(());
+    }
+    let members: Vec<BatchMember<G>> = (0..total)
+        .map(|i| {
+            if Some(i) == bad {
+                BatchMember { prog: &fx1.prog, commitments: &fx1.commitments, proof: &badp }
+            } else if i % 7 == 3 {
+                BatchMember { prog: &fx1.prog, commitments: &fx1.commitments, proof: &fx1.proof }
+            } else {
+                BatchMember { prog: &fx.prog, commitments: &fx.commitments, proof: &fx.proof }
+            }
+        })
+        .collect();
+    let (r, pn) = run_batch::<G>(&members, 4, total as u64 + bad.unwrap_or(0) as u64);
+    let what = || json!({"curve": G::CURVE.name(), "members": total, "invalid_member_at": bad});
+    if let Some(pn) = pn {
+        return Err(Failure::new("C07:huge-batch-panic", format!("batch_verify panicked on {} members: {}", total, pn), what()));
+    }
+    match (bad, r) {
+        (Some(b), Some(Ok(()))) => {
+            return Err(Failure::new(
+                "C07:batch-accepts:invalid-member-in-huge-batch",
+                format!("a batch of {} members is accepted although member {} fails on its own (t_x shifted)", total, b),
+                what(),
+            ))
+        }
+        (None, Some(Err(e))) => {
+            return Err(Failure::new("C07:batch-rejects:huge-all-valid", format!("a batch of {} valid members is rejected: {:?}", total, e), what()));
+        }
+        _ => {}
+    }
+    col.class("huge-batch");
+    col.nontrivial(fp_of(&(G::CURVE, total, bad)));
+    Ok(())
+}
+
 /// Two copies of one valid proof with the final scalar shifted by +k·d and -j·d at positions
 /// p and q of a short batch: weights that are small integer multiples of one another would let
 /// the pair through.
@@ -346,6 +394,11 @@ fn dispatch(sub: &str, bytes: &[u8], col: &mut Collector) -> Result<(), Failure>
 pub fn replay(sub: &str, bytes: &[u8], col: &mut Collector) -> Result<(), Failure> {
     if sub == "c07/ratio-sweep" && bytes.len() == 5 {
         return with_curve!(Curve::ALL[bytes[0] as usize % 3], G => ratio_case::<G>(bytes[1] as usize, bytes[2] as usize, bytes[3] as u64, bytes[4] as u64, col));
+    }
+    if sub == "c07/huge-batch" && bytes.len() == 7 {
+        let total = (bytes[1] as usize) << 16 | (bytes[2] as usize) << 8 | bytes[3] as usize;
+        let bad = (bytes[4] as usize) << 16 | (bytes[5] as usize) << 8 | bytes[6] as usize;
+        return with_curve!(Curve::ALL[bytes[0] as usize % 3], G => huge_case::<G>(total, if bad == 0xff_ffff { None } else { Some(bad) }, col));
     }
     if sub == "c07/distance-sweep" && bytes.len() == 5 {
         let (p, dist) = ((bytes[1] as usize) << 8 | bytes[2] as usize, (bytes[3] as usize) << 8 | bytes[4] as usize);
@@ -406,6 +459,33 @@ pub fn run(tier: &str, seed: u64) -> i32 {
             &items,
             &|(c, p, q, k, j)| vec![c.index() as u8, *p as u8, *q as u8, *k as u8, *j as u8],
             &|(c, p, q, k, j), col| with_curve!(*c, G => ratio_case::<G>(*p, *q, *k, *j, col)),
+        );
+        rep.outcome.merge(o);
+        rep.outcome.exhaustive = false;
+    }
+    // thousands of members: all valid, and one invalid member at the head / middle / tail
+    if rep.outcome.found.is_empty() {
+        let mut items: Vec<(Curve, usize, Option<usize>)> = vec![];
+        if tier == "thorough" {
+            for c in Curve::ALL {
+                for total in [1025usize, 4097, 8200, 20011] {
+                    for bad in [None, Some(0), Some(total / 2), Some(total - 1), Some(total - 1030)] {
+                        items.push((c, total, bad));
+                    }
+                }
+            }
+        } else {
+            let c = Curve::ALL[((seed + 2) % 3) as usize];
+            items.extend([(c, 1025, Some(0)), (c, 4099, None), (c, 4099, Some(0)), (c, 4099, Some(2000)), (c, 4099, Some(4098)), (c, 9001, Some(17))]);
+        }
+        let o = crate::runner::enumerate(
+            "c07/huge-batch",
+            &items,
+            &|(c, t, b)| {
+                let b = b.unwrap_or(0xff_ffff);
+                vec![c.index() as u8, (*t >> 16) as u8, (*t >> 8) as u8, *t as u8, (b >> 16) as u8, (b >> 8) as u8, b as u8]
+            },
+            &|(c, t, b), col| with_curve!(*c, G => huge_case::<G>(*t, *b, col)),
         );
         rep.outcome.merge(o);
         rep.outcome.exhaustive = false;
